@@ -1,6 +1,7 @@
 import Tpp.Driver.Proto
 import Tpp.Model.Order
 import Tpp.Ref.Glyphs
+import Tpp.Model.Printers
 /-!
 Driver slice `Values` (property C15): comparison operators and hashing of the value types.
 
@@ -127,6 +128,8 @@ structure Ty (α : Type) where
   /-- the description with everything the value does not denote blanked out (oracle only) -/
   canon : α → α
   same : α → α → Bool
+  /-- the text `out << value` appends to a stream in its default formatting state (kind `p`) -/
+  print : α → List Byte
 
 /-- one block of a `V` answer, from the MODEL.  Derived operators as the compiler rewrites them:
     `a != b` is `!(a == b)`; `a <= b`, `a > b`, `a >= b` are `(a <=> b) <= 0`, `> 0`, `>= 0`. -/
@@ -244,32 +247,32 @@ def canonGlyph (g : Glyph) : Glyph := if g.cs = .utf8 then g else { g with b1 :=
 def canonElement (e : Element) : Element := { e with glyph := canonGlyph e.glyph }
 
 def mkTy {α : Type} [DecidableEq α] (rd : Rd α) (eq lt : α → α → Bool) (cmp : α → α → Ordering)
-    (hash : Option (α → HashTree)) (canon : α → α := id) : Ty α :=
-  { rd := rd, eq := eq, lt := lt, cmp := cmp, hash := hash, canon := canon, same := fun a b => decide (a = b) }
+    (hash : Option (α → HashTree)) (print : α → List Byte) (canon : α → α := id) : Ty α :=
+  { rd := rd, eq := eq, lt := lt, cmp := cmp, hash := hash, canon := canon, same := fun a b => decide (a = b), print := print }
 
-def tyCharset := mkTy rdCharset Charset.eq Charset.lt Charset.cmp (some Charset.hashTree)
-def tyGlyph := mkTy rdGlyph Glyph.eq Glyph.lt Glyph.cmp (some Glyph.hashTree) canonGlyph
-def tyLow := mkTy (do let v ← Rd.byte; return (⟨v⟩ : LowColour)) LowColour.eq LowColour.lt LowColour.cmp (some LowColour.hashTree)
-def tyHigh := mkTy (do let v ← Rd.byte; return (⟨v⟩ : HighColour)) HighColour.eq HighColour.lt HighColour.cmp (some HighColour.hashTree)
+def tyCharset := mkTy rdCharset Charset.eq Charset.lt Charset.cmp (some Charset.hashTree) printCharset
+def tyGlyph := mkTy rdGlyph Glyph.eq Glyph.lt Glyph.cmp (some Glyph.hashTree) printGlyph canonGlyph
+def tyLow := mkTy (do let v ← Rd.byte; return (⟨v⟩ : LowColour)) LowColour.eq LowColour.lt LowColour.cmp (some LowColour.hashTree) (fun c => showLowColour c.value)
+def tyHigh := mkTy (do let v ← Rd.byte; return (⟨v⟩ : HighColour)) HighColour.eq HighColour.lt HighColour.cmp (some HighColour.hashTree) (fun c => showHighColour c.value)
 def tyGrey := mkTy (do let v ← Rd.byte; return (⟨v⟩ : GreyscaleColour)) GreyscaleColour.eq GreyscaleColour.lt
-  GreyscaleColour.cmp (some GreyscaleColour.hashTree)
+  GreyscaleColour.cmp (some GreyscaleColour.hashTree) (fun c => showGreyColour c.shade)
 def tyTrue := mkTy (do let r ← Rd.byte; let g ← Rd.byte; let b ← Rd.byte; return (⟨r, g, b⟩ : TrueColour))
-  TrueColour.eq TrueColour.lt TrueColour.cmp (some TrueColour.hashTree)
-def tyColour := mkTy rdColour Colour.eq Colour.lt Colour.cmp (some Colour.hashTree)
-def tyIntensity := mkTy (do let n ← Rd.num; return rdIntensity n) Intensity.eq Intensity.lt Intensity.cmp (some Intensity.hashTree)
+  TrueColour.eq TrueColour.lt TrueColour.cmp (some TrueColour.hashTree) (fun c => showTrueColour c.red c.green c.blue)
+def tyColour := mkTy rdColour Colour.eq Colour.lt Colour.cmp (some Colour.hashTree) showColourText
+def tyIntensity := mkTy (do let n ← Rd.num; return rdIntensity n) Intensity.eq Intensity.lt Intensity.cmp (some Intensity.hashTree) printIntensity
 def tyUnderlining := mkTy (do let n ← Rd.num; return rdUnderlining n) Underlining.eq Underlining.lt Underlining.cmp
-  (some Underlining.hashTree)
-def tyPolarity := mkTy (do let n ← Rd.num; return rdPolarity n) Polarity.eq Polarity.lt Polarity.cmp (some Polarity.hashTree)
-def tyBlinking := mkTy (do let n ← Rd.num; return rdBlinking n) Blinking.eq Blinking.lt Blinking.cmp (some Blinking.hashTree)
-def tyAttr := mkTy rdAttr Attr.eq Attr.lt Attr.cmp (some Attr.hashTree)
-def tyElement := mkTy rdElement Element.eq Element.lt Element.cmp (some Element.hashTree) canonElement
-def tyString := mkTy rdTString TString.eq TString.lt TString.cmp (some TString.hashTree) (fun s => s.map canonElement)
-def tyPoint := mkTy rdPoint Point.eq Point.lt Point.cmp none
-def tyExtent := mkTy rdExtent Extent.eq Extent.lt Extent.cmp none
-def tyRectangle := mkTy rdRectangle Rectangle.eq Rectangle.lt Rectangle.cmp none
-def tyControlSequence := mkTy rdControlSequence ControlSequence.eq ControlSequence.lt ControlSequence.cmp none
-def tyVirtualKey := mkTy rdVirtualKey VirtualKey.eq VirtualKey.lt VirtualKey.cmp none
-def tyMouseEvent := mkTy rdMouseEvent MouseEvent.eq MouseEvent.lt MouseEvent.cmp none
+  (some Underlining.hashTree) printUnderlining
+def tyPolarity := mkTy (do let n ← Rd.num; return rdPolarity n) Polarity.eq Polarity.lt Polarity.cmp (some Polarity.hashTree) printPolarity
+def tyBlinking := mkTy (do let n ← Rd.num; return rdBlinking n) Blinking.eq Blinking.lt Blinking.cmp (some Blinking.hashTree) printBlinking
+def tyAttr := mkTy rdAttr Attr.eq Attr.lt Attr.cmp (some Attr.hashTree) printAttr
+def tyElement := mkTy rdElement Element.eq Element.lt Element.cmp (some Element.hashTree) printElement canonElement
+def tyString := mkTy rdTString TString.eq TString.lt TString.cmp (some TString.hashTree) printString (fun s => s.map canonElement)
+def tyPoint := mkTy rdPoint Point.eq Point.lt Point.cmp none printPoint
+def tyExtent := mkTy rdExtent Extent.eq Extent.lt Extent.cmp none printExtent
+def tyRectangle := mkTy rdRectangle Rectangle.eq Rectangle.lt Rectangle.cmp none printRectangle
+def tyControlSequence := mkTy rdControlSequence ControlSequence.eq ControlSequence.lt ControlSequence.cmp none printCtrlSeq
+def tyVirtualKey := mkTy rdVirtualKey VirtualKey.eq VirtualKey.lt VirtualKey.cmp none printVKey
+def tyMouseEvent := mkTy rdMouseEvent MouseEvent.eq MouseEvent.lt MouseEvent.cmp none printMouse
 
 /-- apply `k` to the `Ty` named by the first word -/
 def withTy (name : String) (k : {α : Type} → Ty α → (α → α → Bool) → String) : String :=
@@ -302,6 +305,8 @@ def run (kind : Char) (rest : String) : Option String :=
   match kind, words rest with
   | 'V', name :: ws => some (withTy name fun t _ => runV t ws)
   | 'W', name :: ws => some (withTy name fun t _ => runW t ws)
+  | 'p', name :: ws => some (withTy name fun t _ => hex (t.print (t.rd.run ws).1))
+  | 'p', [] => some "?type"
   | 'V', [] => some "?type"
   | 'W', [] => some "?type"
   | _, _ => none
@@ -314,6 +319,7 @@ def oracle (kind : Char) (_cfg rest real : String) : Option String :=
     if (real.splitOn "unstable-after-hash").length > 1 then
       some s!"FAIL C15 {name} comparison-changes-after-hashing-an-operand {real.take 120}"
     else some (withTy name fun t mustEq => oracleV t name mustEq ws real.trimAscii.toString)
+  | 'p', _ => some "ok"   -- the stream inserters are tied, not judged: no property speaks about them
   | 'W', _ => some "ok"   -- a hash-MISMATCH is a broken tie, not a broken law: reported by the correspondence
   | _, _ => none
 
